@@ -1,11 +1,13 @@
 (* C16 — observation, stream-value and configuration wire codecs round-trip and validate.
    Proved: binary round-trip of every stream value; configuration / value codecs (LLO offchain: accepted on decode
    exactly when valid — defect D5 repaired; LLO and Mercury onchain; int192); their documented rejections.
-   PARTIAL: the observation envelope (proto maps, any entry order) and the JSON-based retirement report / Mercury
-   offchain config are compared with / evaluated on the implementation on every run; their round-trip is not a Coq
-   theorem here (the observation decoder model and ValidateObservation model are compared case by case). *)
-From DS Require Import Base Decimal Wire StreamValue Config.
-From DS Require Import WireProofs StreamValueProofs ConfigProofs.
+   The observation envelope is proved at byte level for ANY order of the two proto map fields and of the removal ids
+   (C16_observation_roundtrip).  Remaining PARTIAL part: the JSON-based retirement report / Mercury offchain config
+   have no Coq model; their round-trip verdict is computed on the implementation on every run. *)
+From stdpp Require Import gmap.
+From DS Require Import Base Decimal Wire StreamValue Config Outcome OutcomeCodec ObservationCodec.
+From DS Require Import WireProofs StreamValueProofs ConfigProofs OutcomeRoundTrip ObservationRoundTrip.
+Open Scope Z_scope.
 
 (* stream values: Decimal (any sign incl. negative zero, any int32 scale), Quote, TimestampedStreamValue *)
 Theorem C16_gob_roundtrip : forall b, gob_decode (gob_encode b) = Ok b.
@@ -16,6 +18,24 @@ Theorem C16_sval_binary_roundtrip : forall v,
   sval_ok v -> sval_small v -> (sval_depth v <= 2)%nat -> sval_unmarshal (sv_type v) (sval_marshal v) = Ok v.
 Proof. exact sval_roundtrip. Qed.
 Print Assumptions C16_sval_binary_roundtrip.
+
+(* the observation envelope, byte level.  rms / ups / vals are the orders in which the encoder happened to emit the
+   removal ids and the entries of the two proto maps (any permutation: Go's map iteration and proto.Marshal do not
+   fix them).  obs_wf: ids are uint32, the timestamp is a uint64 (full range: above MaxInt64 the legacy field is
+   negative and the new field carries it), decimal scales are int32, timestamped values are not nested more than twice.
+   Decoding returns exactly the observation (removal ids in the emitted order), or refuses a duplicated removal id. *)
+Theorem C16_observation_roundtrip : forall rms ups vals ob,
+  obs_wf ob ->
+  Permutation rms (ro_removes ob) -> Permutation ups (map_to_list (ro_updates ob)) -> Permutation vals (map_to_list (ro_values ob)) ->
+  small (encode_observation rms ups vals ob) ->
+  decode_observation (encode_observation rms ups vals ob) =
+  if has_dup rms then Err EInvalid
+  else Ok {| ro_att := ro_att ob; ro_retire := ro_retire ob; ro_ts := ro_ts ob; ro_removes := rms;
+             ro_updates := ro_updates ob; ro_values := ro_values ob |}.
+Proof. exact observation_roundtrip. Qed.
+Print Assumptions C16_observation_roundtrip.
+Theorem C16_no_duplicate_means_accepted : forall l, List.NoDup l -> has_dup l = false.
+Proof. exact has_dup_nodup. Qed.
 
 (* LLO offchain config: round-trips when valid (version 0 with interval 0, version 1 with interval >= 1), is an
    error otherwise; undecodable bytes give the documented zero configuration *)
@@ -66,3 +86,21 @@ Example C16_nv :
   (match encode_int192 (- 2 ^ 191) with Ok b => decode_int192 b | _ => Err EOther end) = Ok (- 2 ^ 191) /\
   is_err (encode_int192 (2 ^ 191)) = true.
 Proof. vm_compute. repeat split; reflexivity. Qed.
+Definition C16_nv_ob : raw_observation :=
+  {| ro_att := [1; 2; 3]; ro_retire := true; ro_ts := 2 ^ 64 - 1; ro_removes := [9; 0; 4];
+     ro_updates := {[ 0 := {| cd_fmt := 2; cd_streams := [(1, 1); (0, 3)]; cd_opts := [123] |} ]};
+     ro_values := {[ 0 := SDec (mkd true 5 (-2)); 7 := STsv 99 (SDec (mkdec 3 0)) ]} |}.
+Example C16_nv_observation :
+  obs_wf C16_nv_ob /\
+  decode_observation (encode_observation [4; 9; 0] (map_to_list (ro_updates C16_nv_ob)) (rev (map_to_list (ro_values C16_nv_ob))) C16_nv_ob)
+  = Ok {| ro_att := [1; 2; 3]; ro_retire := true; ro_ts := 2 ^ 64 - 1; ro_removes := [4; 9; 0];
+          ro_updates := ro_updates C16_nv_ob; ro_values := ro_values C16_nv_ob |} /\
+  decode_observation (encode_observation [4; 9; 4] [] [] C16_nv_ob) = Err EInvalid.
+Proof.
+  split; [|split; vm_compute; reflexivity].
+  unfold obs_wf, C16_nv_ob; cbn [ro_ts ro_removes ro_updates ro_values].
+  split; [unfold u64_ok; lia|]. split; [repeat constructor; unfold u32_ok; lia|].
+  split. { apply map_Forall_singleton. split; [unfold u32_ok; lia|]. split; [unfold u32_ok; simpl; lia|].
+           repeat constructor; unfold u32_ok; simpl; lia. }
+  apply map_Forall_insert_2; [|apply map_Forall_singleton]; unfold sval_wf, u32_ok; cbn; unfold StreamValueProofs.exp_ok; cbn; lia.
+Qed.
